@@ -1316,6 +1316,62 @@ func PopRule(w *World, role string, r *Result, rule string, openers ...string) {
 			}
 		}
 		walk(dump)
+		// a buffer whose contents are handed over to an output buffer as a whole (the lines of the
+		// function being emitted, appended to the list of finished functions) is an output buffer too
+		for changed, round := true, 0; changed && round < 4; round++ {
+			changed = false
+			for _, fn := range fns {
+				for _, b := range fn.Blocks {
+					for _, ins := range b.Instrs {
+						st, ok := ins.(*ssa.Store)
+						if !ok {
+							continue
+						}
+						fa, ok := st.Addr.(*ssa.FieldAddr)
+						if !ok || !output[fieldName(fa)] {
+							continue
+						}
+						var feed func(v ssa.Value, d int)
+						feed = func(v ssa.Value, d int) {
+							if v == nil || d > 5 {
+								return
+							}
+							switch y := v.(type) {
+							case *ssa.UnOp:
+								if fa2, ok := y.X.(*ssa.FieldAddr); ok {
+									if n := fieldName(fa2); n != "" && !output[n] {
+										if _, isSlice := y.Type().Underlying().(*types.Slice); isSlice {
+											output[n] = true
+											changed = true
+										}
+									}
+								}
+							case *ssa.Call:
+								if bi, ok := y.Call.Value.(*ssa.Builtin); ok && bi.Name() == "append" {
+									for _, a := range y.Call.Args[1:] {
+										feed(a, d+1)
+									}
+								}
+							case *ssa.Slice:
+								feed(y.X, d+1)
+							case *ssa.Alloc:
+								// the varargs array of append(list, element)
+								for _, r := range *y.Referrers() {
+									if ia, ok := r.(*ssa.IndexAddr); ok {
+										for _, rr := range *ia.Referrers() {
+											if s2, ok := rr.(*ssa.Store); ok && s2.Addr == ssa.Value(ia) {
+												feed(s2.Val, d+1)
+											}
+										}
+									}
+								}
+							}
+						}
+						feed(st.Val, 0)
+					}
+				}
+			}
+		}
 	}
 	var fields []string
 	for f := range pushes {
